@@ -7,6 +7,15 @@ TB = ("Trusted: Lean 4.33 kernel (propext, Classical.choice, Quot.sound only); S
       "The theorems are about the Lean model; the model is tied to /repo by regenerated tables (translator) and by "
       "differential execution (harness) on every run.")
 claimed = {
+ "C11": dict(
+   text="Lean theorems about the model of the four COSE parsers: each type-specific parser accepts exactly when the struct-decoded members classify "
+        "as a supported key under a declarative classifier transcribed from the standards (EC2 x {P-256,P-384,P-521} x {ES256,ES384,ES512}; OKP/Ed25519/32 "
+        "bytes/EdDSA-or-absent; RSA x seven algorithms, exponent fits), and the key returned carries exactly the encoded members; the dispatching parser "
+        "returns only supported keys with nothing after them, rejects trailing or malformed data as invalid key; the type-specific parsers return the "
+        "following bytes; Marshal then parse yields the same key (normalised magnitudes) for every supported key. Tie: dispatch/curve/algorithm tables, "
+        "struct tags and the OKP condition order are regenerated from cose/*.go and pinned by theorems; the model is run against the real parsers and "
+        "Marshal on the streams listed in the evidence, comparing accept/reject, the sentinel class, key numbers, remaining bytes and Marshal bytes.",
+   ref="DESIGN.md §8 C11", technique="Lean 4 proof (classification iff, round trip) over regenerated tables + differential execution"),
  "C10": dict(
    text="Lean theorems about the model of UnmarshalAuthenticatorData / UnmarshalAttestedCredentialData / Marshal / extractCBOR: acceptance is "
         "equivalent to the WebAuthn layout (32/1/4 bytes, attested credential data iff bit 6, one CBOR item iff bit 7), every field is the "
